@@ -503,7 +503,7 @@ func (a *API) WalkOp(name string, nReplies int) ([]OpPath, *Walker, error) {
 		if pkgOf(f) == up && obj != nil && (!obj.Exported() || publicHelper(f, nil)) && a.Senders[f] == "" && (f.Origin() == nil || a.Senders[f.Origin()] == "") {
 			res := f.Signature.Results()
 			if res.Len() == 1 && isBoolType(res.At(0).Type()) {
-				return simplePredicate(f) // a condition written as a function; anything richer is an opaque predicate
+				return simplePredicate(f) || purePredicate(f) // a condition written as a function; anything richer is an opaque predicate
 			}
 			return !inertFn(f)
 		}
@@ -512,7 +512,7 @@ func (a *API) WalkOp(name string, nReplies int) ([]OpPath, *Walker, error) {
 	// in-module unexported predicates are named structurally, never by identifier
 	w.CallName = func(callee *ssa.Function, name string) (string, bool, bool) {
 		if callee != nil && fnPkg(callee) != nil && fnPkg(callee) == a.P.SSAPkg("uhppote") && callee.Object() != nil && !callee.Object().Exported() {
-			if callee.Signature.Results().Len() == 1 && isBoolType(callee.Signature.Results().At(0).Type()) && !simplePredicate(callee) {
+			if callee.Signature.Results().Len() == 1 && isBoolType(callee.Signature.Results().At(0).Type()) && !simplePredicate(callee) && !purePredicate(callee) {
 				return "pred", true, true
 			}
 		}
